@@ -94,27 +94,37 @@ def strip_epochs(e):
 
 
 def canon_loops(e):
-    """rename loop ids in order of first appearance so that two functions can be compared"""
+    """rename loop ids (and allocation/call site ids) in order of first appearance so that expressions
+    from two functions can be compared"""
     order = {}
-
-    def collect(x):
-        for n in walk_ordered(x):
-            if n[0] in ("it", "ix", "hv") and n[-2 if n[0] != "hv" else 2] is not None:
-                lid = n[1] if n[0] != "hv" else n[2]
-                if lid not in order:
-                    order[lid] = f"L{len(order)}"
-
-    collect(e)
+    sites = {}
+    for n in walk_ordered(e):
+        if n[0] in ("it", "ix", "gen"):
+            if n[1] not in order:
+                order[n[1]] = f"L{len(order)}"
+        elif n[0] == "hv":
+            if n[2] not in order:
+                order[n[2]] = f"L{len(order)}"
+        elif n[0] in ("new", "newb", "ret") and isinstance(n[2], str):
+            sites.setdefault(n[2], f"S{len(sites)}")
+        elif n[0] == "fileobj":
+            sites.setdefault(n[1], f"S{len(sites)}")
 
     def f(n):
-        if n[0] in ("it", "ix"):
+        if n[0] in ("it", "ix", "gen"):
             return (n[0], order.get(n[1], n[1])) + n[2:]
         if n[0] == "hv":
             return ("hv", n[1], order.get(n[2], n[2]))
-        if n[0] == "comp":
-            return n
+        if n[0] in ("new", "newb", "ret") and isinstance(n[2], str):
+            return n[:2] + (sites.get(n[2], n[2]),) + n[3:]
+        if n[0] == "fileobj":
+            return ("fileobj", sites.get(n[1], n[1])) + n[2:]
         return None
     return mapx(e, f)
+
+
+def canon(e):
+    return norm(canon_loops(strip_epochs(e)))
 
 
 def walk_ordered(e) -> Iterator[tuple]:
@@ -348,9 +358,9 @@ def show(e, depth: int = 0) -> str:
         args = [show(x, d) for x in e[2]] + [f"{kk}={show(v, d)}" for kk, v in (e[3] if len(e) > 3 else ())]
         return f"{name}({', '.join(args)})"
     if k == "it":
-        return f"elem#{e[1]}<{show(e[2], d)}>"
+        return f"elem<{show(e[2], d)}>"
     if k == "ix":
-        return f"index#{e[1]}<{show(e[2], d)}>"
+        return f"index<{show(e[2], d)}>"
     if k == "hv":
         return f"loopvar({e[1]}#{e[2]})"
     if k in ("tup", "lst", "set"):
@@ -359,7 +369,7 @@ def show(e, depth: int = 0) -> str:
     if k == "comp":
         return f"[{show(e[2], d)} for {', '.join(show(g, d) for g in e[3])}]"
     if k == "gen":
-        return f"{e[1]} in {show(e[2], d)}" + (f" if {' and '.join(show(c, d) for c in e[3])}" if e[3] else "")
+        return f"_ in {show(e[2], d)}" + (f" if {' and '.join(show(c, d) for c in e[3])}" if e[3] else "")
     if k == "struct":
         return f"Struct({e[1]!r})"
     if k == "unp":
